@@ -972,6 +972,19 @@ def special_cases(strict=True):
          'aml/endian.aml': '"XCP" struct { uint; };'}, a2ml=True)
     add('A2ML block included as a whole', {'main.a2l': _HEAD + '    /include "a2ml.a2l"\n' + _TAIL,
                                            'a2ml.a2l': '    /begin A2ML\n      %s\n    /end A2ML\n' % aml})
+    inc_aml = '    /begin A2ML\n      block "IF_DATA" taggedunion if_data { /include "%s" };\n    /end A2ML\n'
+    add('A2ML block in an included file of a sub-directory, with its own include relative to that file',
+        {'main.a2l': _HEAD + '    /include "defs/interface.a2l"\n' + _TAIL, 'defs/interface.a2l': inc_aml % 'aml/types.aml',
+         'defs/aml/types.aml': '"XCP" struct { uint; };'}, a2ml=True)
+    add('A2ML block in an included file of a sub-directory, include next to that file',
+        {'main.a2l': _HEAD + '    /include defs\\interface.a2l\n' + _TAIL, 'defs/interface.a2l': inc_aml % 'types.aml',
+         'defs/types.aml': '"XCP" struct { uint; };'}, a2ml=True)
+    add('A2ML block two include levels down, include from the parent directory of that file',
+        {'main.a2l': _HEAD + '    /include "a/first.a2l"\n' + _TAIL, 'a/first.a2l': '/include "b/second.a2l"\n',
+         'a/b/second.a2l': inc_aml % '../aml/types.aml', 'a/aml/types.aml': '"XCP" struct { uint; };'}, a2ml=True)
+    add('A2ML include of an included file that exists only next to the main file',
+        {'main.a2l': _HEAD + '    /include "defs/interface.a2l"\n' + _TAIL, 'defs/interface.a2l': inc_aml % 'types.aml',
+         'types.aml': '"XCP" struct { uint; };'}, a2ml=True, expect='error', names=['types.aml'], kind='missing')
     add('IF_DATA content included', {'main.a2l': _HEAD + '    /begin IF_DATA XCP\n      /include "if.a2l"\n    /end IF_DATA\n' + _TAIL,
                                      'if.a2l': '/begin DAQ 1 2 /end DAQ\n'})
     add('IF_DATA: tagged items partly included',
